@@ -268,12 +268,11 @@ def parse_v2(bundle_path):
     view.header = struct.unpack(V2_HEADER_FMT, mm[:V2_HEADER])
     entries = struct.unpack('<%dQ' % NSLOTS, mm[V2_HEADER:V2_DATA_START])
     max_live = 0
-    for i, val in enumerate(entries):
+    view.null_slots = entries.count(0)
+    # an entry is empty iff its size field (high 24 bits) is 0, i.e. iff the value is below 2**40
+    for i in [j for j, v in enumerate(entries) if v > V2_OFFSET_MASK]:
+        val = entries[i]
         size = val >> V2_OFFSET_BITS
-        if size == 0:
-            if val == 0:
-                view.null_slots += 1
-            continue
         off = val & V2_OFFSET_MASK
         x, y = i % GRID, i // GRID
         if off - 4 < V2_DATA_START:
